@@ -252,6 +252,27 @@ func checkC08(c *Ctx) {
 		}
 		c.runHand("property-names", hc)
 	}
+	// a call with the wrong number of arguments is an error *of the call*: none of the callee's body
+	// runs - not its statements and not its 拦截 blocks - and the caller does not get a value
+	{
+		fn := "令迹 = 【】\n如何求商？\n\t输入甲、乙\n\t以迹（后增：“body”）\n\t输出 甲 / 乙\n\n\t拦截异常：\n\t\t以迹（后增：“handler”）\n\t\t输出 -1\n"
+		ty := "定义器：\n\t其数 = 1\n\t如何算？\n\t\t输入甲\n\t\t输出 甲 + 其数\n\n\t\t拦截异常：\n\t\t\t输出 -1\n如何新建器？\n\t输入初\n\t其数 = 初\n\n\t拦截异常：\n\t\t其数 = -1\n"
+		wrap := func(call string) string {
+			return "如何试？\n\t令果 = " + call + "\n\t输出 “got-a-value”\n\n\t拦截异常：\n\t\t输出 “refused”\n输出（试）\n"
+		}
+		c.runHand("arity-and-callee-handler", []handCase{
+			{"function/too-many", fn + wrap("（求商：6、3、2）"), `text("refused")`},
+			{"function/too-few", fn + wrap("（求商：6）"), `text("refused")`},
+			{"function/none", fn + wrap("（求商）"), `text("refused")`},
+			{"function/uncaught", fn + "令果 = （求商：6、3、2）\n输出 果\n", "error:*"},
+			{"function/control-division-fault-is-the-callee's", fn + wrap("（求商：6、0）"), `text("got-a-value")`},
+			{"type-method/too-many", ty + "令物 = （新建器：5）\n" + wrap("以物（算：1、2）"), `text("refused")`},
+			{"type-method/too-few", ty + "令物 = （新建器：5）\n" + wrap("以物（算）"), `text("refused")`},
+			{"constructor/too-many", ty + wrap("（新建器：1、2）"), `text("refused")`},
+			{"constructor/too-few", ty + wrap("（新建器）"), `text("refused")`},
+			{"function/body-and-handler-untouched", fn + "如何试？\n\t令果 = （求商：6、3、2）\n\t输出 1\n\n\t拦截异常：\n\t\t输出 迹\n输出（试）\n", `list[]`},
+		})
+	}
 	// objects of a type that another module defines: 新建 in the importer initialises them with the
 	// constructor as its module wrote it (that module's variables, helpers, constants), 其 is the new
 	// object, methods and constructor agree, and the importer's own names of the same spelling play
